@@ -18,6 +18,12 @@ EXPLANATION = (
     "addends do not: fl model |delta| <= 2^-50)."
 )
 ENCODED = [
+    "tensorly.decomposition._nn_cp.non_negative_parafac",
+    "tensorly.decomposition._nn_cp.non_negative_parafac_hals",
+    "tensorly.decomposition._constrained_cp.constrained_parafac",
+    "tensorly.decomposition._tucker.non_negative_tucker",
+    "tensorly.decomposition._tucker.non_negative_tucker_hals",
+    "tensorly.decomposition._parafac2._BroThesisLineSearch.line_step",
     "tensorly.decomposition._cp.parafac",
     "tensorly.decomposition._cp.error_calc",
     "tensorly.decomposition._cp.initialize_cp",
@@ -104,6 +110,20 @@ def configs(tier):
     for rows, J, R in [((2, 2), 2, 1), ((2, 3), 2, 1), ((2, 2), 2, 2)] + ([] if q else [((3, 2), 2, 2), ((2, 2, 2), 2, 1)]):
         for opt in ("plain", "normalize", "svd_init"):
             add("parafac2", rows=rows, J=J, R=R, opt=opt, K=2, mode="fork")
+    for alg in ("nn_parafac", "nn_parafac_hals", "constrained", "nn_tucker", "nn_tucker_hals"):
+        for shp, R in [((2, 2), 1), ((2, 2, 2), 1), ((2, 2), 2)]:
+            opts = ["plain"]
+            if alg in ("nn_parafac", "nn_parafac_hals"):
+                opts.append("normalize")
+            if alg in ("nn_parafac_hals", "nn_tucker_hals"):
+                opts.append("sparsity")
+            if alg == "nn_tucker_hals":
+                opts.append("active_set")
+            for opt in opts:
+                if alg == "nn_tucker" and R == 2:
+                    continue  # nested clip terms of the multiplicative core update at rank 2 exceed the budget
+                add("other", alg=alg, shape=shp, R=R, opt=opt, K=2, mode="merge")
+    add("parafac2", rows=(2, 2), J=2, R=1, opt="linesearch", K=7, mode="fork")
     add("parafac", shape=(2, 2, 2), R=1, opt="linesearch", K=8, mode="fork")
     add("parafac", shape=(2, 2), R=2, opt="linesearch_normalize", K=8, mode="fork")
     add("parafac", shape=(2, 2, 2), R=2, opt="symbolic_tol", K=3, mode="fork")
@@ -119,8 +139,97 @@ def harness(E, cfg):
         h_tucker(E, cfg)
     elif fam == "parafac2":
         h_parafac2(E, cfg)
+    elif fam == "other":
+        h_other(E, cfg)
     else:
         raise KeyError(fam)
+
+
+def _fresh_stub(kind, nn=True, shape_from=0):
+    """functional contract stub for an inner solver: fresh (non-negative) output of the shape of argument `shape_from`"""
+    from vt import backend
+
+    def stub(*a, **k):
+        ref = a[shape_from] if shape_from < len(a) else k.get("x")
+        args = tuple(x for x in a if isinstance(x, np.ndarray))
+        hit = backend._lookup(kind, args)
+        if hit is None:
+            hit = backend._record(kind, args, backend.fresh_array(kind, np.shape(ref), nn=nn))
+        return hit.copy()
+
+    return stub
+
+
+def h_other(E, cfg):
+    """algorithms whose error is (or should be) the explicit residual norm, plus the shortcut-based non-negative / constrained CP variants"""
+    from vt import backend
+    import tensorly.decomposition._nn_cp as _nn
+    import tensorly.decomposition._tucker as _tk
+    import tensorly.decomposition._constrained_cp as _cc
+    import tensorly.decomposition._cp as _cp
+    from tensorly.decomposition import non_negative_parafac, non_negative_parafac_hals, non_negative_tucker, non_negative_tucker_hals, constrained_parafac
+
+    alg, shp, R, opt, K = cfg["alg"], cfg["shape"], cfg["R"], cfg["opt"], cfg["K"]
+    if E.symbolic:
+        backend.configure(solve="havoc", svd="havoc")
+        for mod in (_cp, _nn, _cc):
+            if hasattr(mod, "cp_normalize"):
+                backend.patch(mod, "cp_normalize", stub_cp_normalize)
+        backend.patch(_nn, "hals_nnls", _fresh_stub("hals"))
+        backend.patch(_tk, "hals_nnls", _fresh_stub("hals"))
+        backend.patch(_tk, "fista", lambda UtM, UtU, x=None, **k: _fresh_stub("fista", shape_from=0)(UtM, *([x] if x is not None else [])))
+        backend.patch(_tk, "active_set_nnls", lambda Utm, UtU, x=None, **k: _fresh_stub("aset", shape_from=0)(Utm, UtU))
+
+        def admm_stub(UtM, UtU, x, dual_var, **k):
+            out = _fresh_stub("admm_x", nn=False, shape_from=2)(UtM, UtU, x, dual_var)
+            return out, np.transpose(_fresh_stub("admm_split", nn=False, shape_from=2)(UtM, UtU, x, dual_var)), _fresh_stub("admm_dual", nn=False, shape_from=2)(UtM, UtU, x, dual_var)
+
+        backend.patch(_cc, "admm", admm_stub)
+        import tensorly.tenalg as _tg
+
+        backend.patch(tl, "truncated_svd", lambda M, **k: stub_svd_interface(M, **k))
+    X = E.real("X", shp, pos=True)
+    last = None
+    for k in range(1, K + 1):
+        if alg in ("nn_parafac", "nn_parafac_hals", "constrained"):
+            F0 = [E.real(f"F{m}", (n, R), pos=True) for m, n in enumerate(shp)]
+            kw = dict(n_iter_max=k, init=(None, [np.array(f) for f in F0]), return_errors=True)
+            if alg == "nn_parafac":
+                res, errs = non_negative_parafac(np.array(X), R, tol=0 if False else 1e-300, normalize_factors=(opt == "normalize"), **kw)
+            elif alg == "nn_parafac_hals":
+                kw2 = dict(kw)
+                if opt == "sparsity":
+                    kw2["sparsity_coefficients"] = [E.real("sp0", pos=True)] + [None] * (len(shp) - 1)
+                res, errs = non_negative_parafac_hals(np.array(X), R, tol=1e-300, normalize_factors=(opt == "normalize"), **kw2)
+            else:
+                res, errs = constrained_parafac(np.array(X), R, tol_outer=1e-300, n_iter_max_inner=1, non_negative=True, **kw)
+            w, fs = res
+            M = dense_cp(w, fs)
+        else:
+            rank = [R] * len(shp)
+            core0 = E.real("G", tuple(rank), pos=True)
+            F0 = [E.real(f"F{m}", (n, R), pos=True) for m, n in enumerate(shp)]
+            kw = dict(n_iter_max=k, init=(np.array(core0), [np.array(f) for f in F0]), return_errors=True)
+            if alg == "nn_tucker":
+                res, errs = non_negative_tucker(np.array(X), rank=rank, tol=1e-300, normalize_factors=False, **kw)
+            else:
+                kw2 = dict(kw)
+                if opt == "sparsity":
+                    kw2["sparsity_coefficients"] = [E.real("sp0", pos=True)] + [None] * (len(shp) - 1)
+                if opt == "active_set":
+                    kw2["algorithm"] = "active_set"
+                res, errs = non_negative_tucker_hals(np.array(X), rank=rank, tol=1e-300, **kw2)
+            core, fs = res
+            M = dense_tucker(core, fs)
+        if len(errs) == k:
+            _err_obligations(E, f"K{k}/last_error_is_error_of_result", errs[-1], X, M)
+        else:
+            E.prove(f"K{k}/n_errors", 1 <= len(errs) <= k)
+        if last is not None and len(errs) > len(last):
+            E.prove(f"K{k}/prefix_consistent", [E.eq(a, b) for a, b in zip(last, errs)])
+        if len(errs) == k:
+            last = list(errs)
+    _finite(E, "sqrt_arguments_rounding_robust")
 
 
 def stub_orthonormal_svd(matrix, n_eigenvecs=None, **kw):
@@ -216,7 +325,7 @@ def h_parafac2(E, cfg):
     allx = [x for sl in slices for x in np.asarray(sl, dtype=object).ravel()]
     E.assume(E.Or([E.Not(E.eq(x, 0)) for x in allx]))
     I = len(rows)
-    kw = dict(return_errors=True, n_iter_parafac=1, linesearch=False, tol=cfg.get("tol", 1e-30))
+    kw = dict(return_errors=True, n_iter_parafac=1, linesearch=(opt == "linesearch"), tol=cfg.get("tol", 1e-30))
     if opt == "normalize":
         kw["normalize_factors"] = True
     if opt in ("svd_init",):
@@ -232,6 +341,8 @@ def h_parafac2(E, cfg):
         kw["init"] = (None, [np.array(A), np.array(B), np.array(C)], P0)
     last = None
     for k in range(1, K + 1):
+        if opt == "linesearch" and k < K:
+            continue
         if isinstance(kw["init"], tuple):
             init = (None, [np.array(f) for f in kw["init"][1]], [np.array(p_) for p_ in kw["init"][2]])
             kw2 = dict(kw, init=init)
@@ -260,8 +371,8 @@ def h_parafac2(E, cfg):
         E.nonneg(tot_M)
         E.nonneg(tot_res)
         spec = E.sqrt(tot_res) / E.sqrt(tot_ref)
-        if len(errs) == k:
-            E.prove(f"K{k}/last_error_is_error_of_result/value", E.eq(errs[-1], spec))
+        # holds on every exit (iteration cap or convergence break): the last reported value belongs to the returned decomposition
+        E.prove(f"K{k}/last_error_is_error_of_result/value", E.eq(errs[-1], spec))
         if last is not None and len(errs) > len(last):
             E.prove(f"K{k}/prefix_consistent", [E.eq(a, b) for a, b in zip(last, errs)])
         if len(errs) == k:
